@@ -175,6 +175,9 @@ func recorder(id string) *Recorder {
 		return r
 	}
 	r := &Recorder{ID: id, hashes: map[uint64]struct{}{}, Classes: map[string]int64{}, Excluded: map[string]int64{}}
+	if strconv.IntSize == 32 {
+		r.Classes["shards-in-a-32-bit-build (GOARCH=386)"] = 1
+	}
 	recorders[id] = r
 	return r
 }
@@ -264,6 +267,17 @@ type replayFile struct {
 	Check    string          `json:"check"`
 	Error    string          `json:"error"`
 	Case     json.RawMessage `json:"case"`
+	// Arch is "386" when the case failed in a 32-bit build of library and harness (int is 32 bits wide);
+	// bin/vcheck replay then builds the same way
+	Arch string `json:"arch,omitempty"`
+}
+
+// buildArch names the build when it is not the default 64-bit one.
+func buildArch() string {
+	if strconv.IntSize == 32 {
+		return "386"
+	}
+	return ""
 }
 
 // Violation saves the failing case as a replay file and records the finding.
@@ -276,7 +290,7 @@ func (r *Recorder) Violation(check string, c interface{}, sig string, err error)
 	path := ""
 	if envReplay != "" {
 		raw, _ := json.Marshal(c)
-		b, _ := json.MarshalIndent(replayFile{Property: r.ID, Check: check, Error: err.Error(), Case: raw}, "", " ")
+		b, _ := json.MarshalIndent(replayFile{Property: r.ID, Check: check, Error: err.Error(), Case: raw, Arch: buildArch()}, "", " ")
 		path = filepath.Join(envReplay, fmt.Sprintf("%s-%s-shard%d.json", r.ID, check, envShard))
 		os.MkdirAll(envReplay, 0o755)
 		os.WriteFile(path, b, 0o644)
